@@ -359,6 +359,13 @@ def _canon_block(stmts: list[ast.stmt], in_function: bool = True) -> list[ast.st
                 comb = ast.BoolOp(op=ast.Or() if neg else ast.And(), values=[prev.value, a.value])
                 out[-1] = ast.fix_missing_locations(ast.copy_location(ast.Assign(targets=prev.targets, value=ast.copy_location(comb, prev.value), lineno=prev.lineno), prev))
                 continue
+        # C9d: `a, b = X, Y` is `a = X; b = Y` when neither X nor Y reads a or b (no swap semantics)
+        if isinstance(st, ast.Assign) and len(st.targets) == 1 and isinstance(st.targets[0], ast.Tuple) and isinstance(st.value, ast.Tuple) and len(st.targets[0].elts) == len(st.value.elts) and all(isinstance(t, ast.Name) for t in st.targets[0].elts) and not any(isinstance(v, ast.Starred) for v in st.value.elts):
+            tnames = {t.id for t in st.targets[0].elts}
+            if len(tnames) == len(st.targets[0].elts) and not (tnames & {x.id for x in ast.walk(st.value) if isinstance(x, ast.Name)}):
+                for t, v in zip(st.targets[0].elts, st.value.elts):
+                    out.append(ast.fix_missing_locations(ast.copy_location(ast.Assign(targets=[t], value=v, lineno=st.lineno), st)))
+                continue
         # C9c: `if c: return A else: return B` is `return A if c else B`
         if isinstance(st, ast.If) and len(st.body) == 1 and len(st.orelse) == 1 and isinstance(st.body[0], ast.Return) and isinstance(st.orelse[0], ast.Return) and st.body[0].value is not None and st.orelse[0].value is not None and not _is_chain_head(st):
             e = ast.IfExp(test=st.test, body=st.body[0].value, orelse=st.orelse[0].value)
